@@ -86,7 +86,7 @@ def as_container(cls, term, form):
     raise AssertionError(form)
 
 
-def rand_scalar(rng, for_div=False):
+def rand_scalar(rng, for_div=False, special=False):
     if for_div:
         base = rng.choice([1, 2, 4, 0.5, 0.25, -1, -2, -0.5, 8])
         r = rng.random()
@@ -95,6 +95,11 @@ def rand_scalar(rng, for_div=False):
         if r < 0.4:
             return int(base) if float(base).is_integer() else base
         return float(base)
+    if special and rng.random() < 0.15:
+        # neutral / boundary scalars of every admissible type (bool is an int for the library):
+        # the identity shortcuts of reflected and in-place operators live here
+        import numpy
+        return rng.choice([0, False, True, 1, 0.0, -0.0, 0j, -1, numpy.float64(0.0), numpy.complex128(0)])
     c = dyadic(rng, max_num=4, max_pow=2)
     u = rng.random()
     if u < 0.08:
@@ -138,7 +143,7 @@ def gen_program(rng, cls, nvars, nstmts, max_len, max_index):
             o = rng.choice(['mul', 'rmul', 'div', 'add', 'radd', 'sub', 'rsub'])
             if cls == 'majorana' and o in ('radd', 'rsub'):
                 o = 'mul'
-            st = ['sbin', x, o, y, rand_scalar(rng, for_div=(o == 'div'))]
+            st = ['sbin', x, o, y, rand_scalar(rng, for_div=(o == 'div'), special=True)]
         elif r < 0.53:
             st = ['neg', x, y]
         elif r < 0.57:
@@ -152,7 +157,7 @@ def gen_program(rng, cls, nvars, nstmts, max_len, max_index):
         else:
             x = rng.choice(bound)
             o = rng.choice(['mul', 'div', 'add', 'sub'])
-            st = ['isop', x, o, rand_scalar(rng, for_div=(o == 'div'))]
+            st = ['isop', x, o, rand_scalar(rng, for_div=(o == 'div'), special=True)]
         prog.append(st)
         if st[0] in ('new', 'zero', 'alias', 'bin', 'sbin', 'neg', 'pow') and st[1] not in bound:
             bound.append(st[1])
@@ -382,19 +387,30 @@ def untouched_ok(prog, outs, C_ids):
     the implementation's own snapshots, exactly)."""
     bad = []
     prev = None
+    # which variables denote the same object is decided by the PROGRAM (only `alias` statements share an
+    # object; every out-of-place statement binds its target to a new value), not by the identities the
+    # implementation happens to return: a result that is secretly one of its operands must not excuse a
+    # later in-place update of it from changing that operand
+    obj, fresh = {}, 0
     for i, (st, snap) in enumerate(zip(prog, outs)):
+        obj_prev = dict(obj)
+        if not isinstance(snap, dict):
+            if st[0] == 'alias':
+                obj[st[1]] = obj.get(st[2])
+            elif st[0] not in ('iop', 'isop'):
+                fresh += 1
+                obj[st[1]] = fresh
         if isinstance(snap, dict):
             continue
         if prev is not None:
             target = st[1]
-            ids_prev, ids_now = C_ids[i - 1] if i > 0 else None, C_ids[i]
             for x in range(len(snap)):
                 if prev[x] is None or snap[x] is None:
                     continue
                 if x == target:
                     continue
                 # a variable aliasing the in-place target legitimately changes with it
-                if st[0] in ('iop', 'isop') and ids_prev is not None and ids_prev[x] == ids_prev[target]:
+                if st[0] in ('iop', 'isop') and obj_prev.get(x) is not None and obj_prev.get(x) == obj_prev.get(target):
                     continue
                 if canon_op_json(prev[x]) != canon_op_json(snap[x]):
                     bad.append((i, x))
@@ -445,6 +461,11 @@ def check_programs(ctx, stream, cls, progs, nvars, oracle=True):
             for s_ in p:
                 if s_[0] == 'new' and len(s_) > 4:
                     stream.count('term-container:' + s_[4])
+        if any(s_[0] in ('sbin', 'isop') and type(s_[-1]).__name__ not in ('float', 'complex') for s_ in p):
+            case['scalar_types'] = [type(s_[-1]).__name__ if s_[0] in ('sbin', 'isop') else None for s_ in p]
+        for s_ in p:
+            if s_[0] in ('sbin', 'isop'):
+                stream.count('scalar:' + type(s_[-1]).__name__ + (':zero' if s_[-1] == 0 else ''))
         stream.case(case)
         for st in p:
             stream.count('stmt:' + st[0] + (':' + str(st[2]) if st[0] in ('bin', 'sbin', 'iop', 'isop') else ''))
@@ -530,6 +551,18 @@ def dec_stmt(cls, st):
     return list(st)
 
 
+def attach_scalar_types(prog, types):
+    """restore the Python type of recorded scalars (int / bool / numpy scalars are floats in the encoding)"""
+    import numpy
+    cast = {'int': int, 'bool': bool, 'float64': numpy.float64, 'complex128': numpy.complex128}
+    if types:
+        for st, t in zip(prog, types):
+            if t in cast and st[0] in ('sbin', 'isop'):
+                c = st[-1]
+                st[-1] = cast[t](c.real if t in ('int', 'bool') and isinstance(c, complex) else c)
+    return prog
+
+
 def attach_forms(prog, forms):
     if forms:
         for st, f in zip(prog, forms):
@@ -545,7 +578,8 @@ def replay(ctx, payload):
         return None
     inp = v['input']
     cls = inp['cls']
-    prog = attach_forms([dec_stmt(cls, st) for st in inp['prog_enc']], inp.get('forms'))
+    prog = attach_scalar_types(attach_forms([dec_stmt(cls, st) for st in inp['prog_enc']], inp.get('forms')),
+                               inp.get('scalar_types'))
     st = Stream('replay', 'recorded program')
     check_programs(ctx, st, cls, [prog], inp['nvars'])
     for x in st.violations + st.disagreements:
@@ -559,7 +593,8 @@ def shrink(ctx, v):
     if 'prog_enc' not in inp:
         return v
     cls, nvars = inp['cls'], inp['nvars']
-    prog = attach_forms([dec_stmt(cls, st) for st in inp['prog_enc']], inp.get('forms'))
+    prog = attach_scalar_types(attach_forms([dec_stmt(cls, st) for st in inp['prog_enc']], inp.get('forms')),
+                               inp.get('scalar_types'))
 
     def fails(pr):
         st = Stream('shrink', '')
